@@ -2,6 +2,7 @@ import SkyllhModel.Proto
 import SkyllhModel.Model.LLH
 import SkyllhModel.Model.Grad
 import SkyllhModel.Model.ParamLayout
+import SkyllhModel.Model.GradState
 open Proto LLH Grad ParamLayout
 
 /-  requests (floats as IEEE bit patterns, ints decimal):
@@ -12,6 +13,12 @@ open Proto LLH Grad ParamLayout
       evt <opa> <ns> <X> <dX>            -> <logLambdaI> <nsGradI> <pGradI>
       sob <sigDep> <bkgDep> <s> <b> <ds> <db>   -> <grad>
       prod <dep1> <dep2> <r1> <r2> <dr1> <dr2>  -> <grad>
+      stateful (one MultiDatasetTCLLHRatio object, Model/GradState.lean):
+      hreset <J>                          -> ok            fresh object with J datasets
+      hnew <N,nSel;N,nSel;…>              -> ok            new pseudo-data trial
+      heval <opa> <ns> <f: J> <X_1;X_2;…> -> ok            successful evaluate (X_j: list of floats, `-` empty)
+      hfail <f: J>                        -> ok            evaluate raising inside the first single llh ratio
+      hgrad2 <ns>                         -> <value> | ERR:<noWeights|notEvaluated>
       stack <opa> <ns> <nFit> <nsIdx> <K> <gp: K*2 ints> <W: K> <J> then per dataset:
             <N> <parA 0|1> <parB 0|1> <Y: K> <dY: K*2> <nSel> <leaves: nSel*K*4 = rA,rB,dA,dB>
           -> <value> <grads> <nsgrad2>
@@ -45,6 +52,25 @@ def parseDatasets (K : Nat) : List String → List (DSIn Float)
         :: parseDatasets K rest
   | _ => []
 
+def hstep (m : GradState.Multi Float) (line : String) : Option (GradState.Multi Float × String) :=
+  match tokens line with
+  | ["hreset", j] => some (GradState.init (pN j), "ok")
+  | ["hnew", sz] =>
+      let sizes := (sz.splitOn ";").map (fun t => match t.splitOn "," with
+        | [a, b] => (pN a, pN b)
+        | _ => (0, 0))
+      some ((GradState.step (0.0 : Float) m (.newTrial sizes)).1, "ok")
+  | ["heval", opa, ns, f, xs] =>
+      let Xs := (xs.splitOn ";").map (pList pF)
+      some ((GradState.step (pF opa) m (.evaluate (pF ns) (pList pF f) Xs)).1, "ok")
+  | ["hfail", f] => some ((GradState.step (0.0 : Float) m (.evaluateFail (pList pF f))).1, "ok")
+  | ["hgrad2", ns] =>
+      some (m, match m.grad2 (pF ns) with
+        | .ok g => fF g
+        | .error .noWeights => "ERR:noWeights"
+        | .error .notEvaluated => "ERR:notEvaluated")
+  | _ => none
+
 def answer (line : String) : String :=
   match tokens line with
   | ["layout", l, k, nn] =>
@@ -76,4 +102,9 @@ def answer (line : String) : String :=
       s!"{fF r.value} {fListD fF r.grads} {fF r.nsGrad2}"
   | _ => "bad-op"
 
-def main : IO Unit := do loop (← IO.getStdin) answer
+def stepS (m : GradState.Multi Float) (line : String) : GradState.Multi Float × String :=
+  match hstep m line with
+  | some r => r
+  | none => (m, answer line)
+
+def main : IO Unit := do loopS (← IO.getStdin) (GradState.init 0) stepS
